@@ -252,11 +252,31 @@ class Prov:
             if "def" in op:
                 if "promoted" in op:
                     return self.promoted_tree(op["promoted"])
-                return ("constdef", op["def"])
+                return self._const_item(op["def"])
             if op.get("zst"):
                 return ("const", "zst:" + self.body.ty(op["ty"])["s"])
             return ("const", op.get("s", "?"))
         return ("unknown", "operand")
+
+    def _const_item(self, key):
+        """a named constant the rules do not know by name is replaced by its value (an evaluated scalar, or the
+        expression tree of its initialiser); see facts.Program.opaque_names"""
+        prog = getattr(getattr(self.body, "unit", None), "prog", None)
+        name = key.rsplit("::", 1)[-1]
+        if prog is None or name in prog.opaque_names() or getattr(self, "_inl_depth", 0) >= 3:
+            return ("constdef", key)
+        c = prog.consts.get(key)
+        if c is not None and "v" in c:
+            return ("const", c["v"])
+        cb = prog.const_bodies.get(key)
+        if cb is None:
+            return ("constdef", key)
+        sub = Prov(cb)
+        sub._inl_depth = getattr(self, "_inl_depth", 0) + 1
+        rt = sub.local_tree(0)
+        if _has_unknown(rt):
+            return ("constdef", key)
+        return rt
 
     def promoted_tree(self, idx):
         for pr in self.body.promoted:
